@@ -16,6 +16,11 @@ def parseTx (s : String) : Option MTx :=
   | ["other"] => some .other
   | _ => none
 
+def showClaim : Claim → String
+  | .deposit n h => s!"dep:{n}:{h}"
+  | .batch n b h => s!"bat:{n}:{b}:{h}"
+  | .valset n v h => s!"val:{n}:{v}:{h}"
+
 def showCursor (c : Cursor) : String := s!"({c.lastChecked},{c.nextEvent},{c.nextBatch},{c.lastValset})"
 
 def cstep (st : CSt) (line : String) : CSt × String :=
@@ -41,6 +46,13 @@ def cstep (st : CSt) (line : String) : CSt × String :=
       let persisted := (r.commits.getLast?).getD st.persisted
       ({ st with persisted := persisted, lastLog := r.commits },
         "commits " ++ ";".intercalate (r.commits.map showCursor) ++ " final " ++ showCursor r.cur)
+  | ["m_relay"] =>
+    let latest := (st.chain.map (·.height)).foldl max 0
+    let r := relay st.persisted st.chain latest
+    let persisted := (r.commits.getLast?).getD st.persisted
+    ({ st with persisted := persisted, lastLog := r.commits },
+      "relay claims " ++ ",".intercalate (r.claims.map showClaim) ++ " commits " ++ ";".intercalate (r.commits.map showCursor)
+        ++ " final " ++ showCursor r.cur)
   | ["m_restart", k] =>
     match k.toNat? with
     | none => (st, "bad-op")
